@@ -74,7 +74,7 @@ Section Gap.
     { apply (data_le_last data Hne Hs). destruct data; [contradiction|]. left. reflexivity. }
     assert (Ek : Z.max (hd 0 data) q = q) by (unfold ldk in *; lia). rewrite Ek in Hfl.
     destruct (build_chain_gap c data ix q Hbits Hpar ltac:(lia) Hrec64 Hne Hs Hkt Hlast Hn64 Hfl Hbuild Hsegs32)
-      as (up & r0 & Hch & Hk0 & Eix & Htop & HT & Hext).
+      as (up & r0 & Hch & Hk0 & Eix & Htop & HT & _ & Hext).
     assert (Hfull : exists top rl, up ++ [r0] = top :: rl /\ last rl top = r0).
     { destruct up as [|u up']; [exists r0, []; split; reflexivity|].
       exists u, (up' ++ [r0]). split; [reflexivity|]. rewrite last_last. reflexivity. }
@@ -189,3 +189,34 @@ End Gap.
 
 Print Assumptions C02_search.
 Print Assumptions C07_route_trace_wide.
+
+(* ------------------------------------------------------------------------------------------------
+   SUMMARY (closes the gap documented at the end of IdxBeyond.v)
+
+   Proved here, under exactly the hypotheses of C02_search_partial:
+   - C02_search: the search contract for EVERY query q < sentinel and EVERY EpsilonRecursive, in
+     particular last < q < sentinel on the binary-search routing path.
+   - C07_route_trace_bsearch: on the binary-search path every level touches at most
+     2*EpsilonRecursive+3 segments and starts at the window, for every q < sentinel.
+   - C07_route_trace_wide: on both paths, for every q < sentinel, the bound is 2*EpsilonRecursive+3
+     except for last < q on the linear-scan path, where it is 2*EpsilonRecursive+4.
+   REFUTED (IdxGapRefute.v, Example C07_refuted, replayed by vm_compute and confirmed on the C++):
+   - the bound 2*EpsilonRecursive+3 for last < q < sentinel on the linear-scan path is false.
+
+   How the three structural questions of IdxBeyond.v were settled:
+   (a) the shape of a one-point closing segment is not needed;
+   (b) sortedness of an upper level's keys after the extra segment (last+1, 0, n_l) is appended was
+       neither proved nor needed (nothing excludes a real key last+2 followed by the extra key
+       last+1 when last = kmax-3 and the closing points of levels 0 and 1 open their own segments;
+       no such input was constructed): the responsible position is defined as "before the first
+       key > q" (`resp`), which is what the model's upper_bound and the linear scan compute;
+   (c) when a real segment and the extra segment share the key last+1 = q, the window of the binary
+       search may stop one slot short of the extra segment; it then ends on the last real segment,
+       whose prediction is equally valid (`good`, second alternative; `window_bsearch`).
+   The one fact about the segmentation that had to be added is `no_split_tail` (IdxGapPla.v): for
+   strictly increasing keys the last key and the closing point never both open a segment (greedy
+   inside a chunk; no chunk consists of the closing point alone).  It gives `tail1`: at every level
+   at most one real key exceeds last+1, so that the prediction n_l of an upper level's extra
+   segment is at most 2 slots to the right of the responsible segment of the level below
+   (EpsilonRecursive >= 1 then suffices).
+   ------------------------------------------------------------------------------------------------ *)
